@@ -6,6 +6,7 @@ executable predicates run on the implementation's output: `Spec/C18.lean`).
 import Bermuda.Lemmas.Units
 import Bermuda.Lemmas.UnitsPolicy
 import Bermuda.Lemmas.UnitsDisagg
+import Bermuda.Lemmas.UnitsBridge
 import Bermuda.Spec.C18
 namespace Bermuda.Properties.C18
 open Bermuda Bermuda.Units Bermuda.Spec.C18
@@ -70,12 +71,6 @@ theorem currency_sets_target {t out : List Cell} {target : String} {rates : List
   · exact hc
   · rw [(convertCell_spec hconv).2.2.2.2.2.1]
 
--- OPEN currency_spec_bridge
---   convertCurrency t target rates = .ok out →
---   Spec.C18.currencySpec Spec.C18.moneyFields target (rates.map fun p => (p.1, p.2.toRat)) t out = true
--- (`currency_spec` + `currency_cell_spec` + `mulNum_value` + `currencyFields_pinned` are the Prop
---  form; that the greedy matching of `matchAll` finds the bijection is not proved)
-
 /-- refusal 1: a cell without currency anywhere in the triangle -/
 theorem currency_refuses_missing_currency {t : List Cell} {target : String}
     {rates : List (String × Num)} {c : Cell} (hc : c ∈ t) (hn : c.md.currency = none) :
@@ -121,6 +116,39 @@ theorem currency_refusal_class {t : List Cell} {target : String} {rates : List (
   subst this
   unfold convertCurrency
   simp [he, bind, Except.bind]
+
+/-- **currency_spec_bridge.** the executable predicate holds on the model's own output, for value
+dicts with distinct keys and cells that do not collide after conversion (two cells landing on one
+position — same class, coordinates and metadata up to currency — is the duplicate the library
+itself warns about; the greedy matching of `matchAll` is only complete without them) -/
+theorem currency_spec_bridge {t out : List Cell} {target : String} {rates : List (String × Num)}
+    (hkn : ∀ c ∈ t, (c.values.map (·.1)).Nodup) (hpos : (t.map (posAfter target)).Nodup)
+    (h : convertCurrency t target rates = .ok out) :
+    currencySpec moneyFields target (rates.map fun p => (p.1, p.2.toRat)) t out = true := by
+  unfold currencySpec
+  simp only [Bool.and_eq_true, Bool.not_eq_eq_eq_not, Bool.not_true, beq_iff_eq, List.all_eq_true]
+  refine ⟨⟨⟨?_, currency_count h⟩, fun o ho => currency_sets_target h o ho⟩, ?_⟩
+  · -- not a refusal case
+    by_contra hm
+    have hm' : currencyMustRefuse target (rates.map fun p => (p.1, p.2.toRat)) t = true := by
+      simpa using hm
+    unfold currencyMustRefuse at hm'
+    rw [List.any_eq_true] at hm'
+    obtain ⟨c, hc, hbad⟩ := hm'
+    cases hcur : c.md.currency with
+    | none =>
+      obtain ⟨e, he⟩ := currency_refuses_missing_currency (target := target) (rates := rates) hc hcur
+      rw [h] at he; cases he
+    | some cur =>
+      simp only [hcur, Bool.and_eq_true, bne_iff_ne, ne_eq, Bool.not_eq_eq_eq_not, Bool.not_true] at hbad
+      obtain ⟨e, he⟩ := currency_refuses_missing_rate (rates := rates) hc hcur hbad.1 (any_rates_false hbad.2)
+      rw [h] at he; cases he
+  · obtain ⟨tin, tout, h1, h2, h3⟩ := currency_spec h
+    refine matchAll_of_keys _ (posAfter target) posOf (fun c o hr => convRel_pos hr) t out
+      (currency_count h) hpos ?_
+    intro c hc
+    obtain ⟨o, ho, hco⟩ := h3.mem_left (h1.mem_iff.mpr hc)
+    exact ⟨o, h2.mem_iff.mp ho, convRel_of_converted (hkn c hc) hco⟩
 
 /-- non-vacuity: a one-cell EUR triangle converted to USD at 5/4 — the loss is multiplied, the
 claim count is not, the currency is set -/
@@ -334,10 +362,55 @@ theorem policyYear_conserves {t out : List Cell} {len : Nat} {origin : Date} {co
     have := List.all_eq_true.mp this row hrow
     simpa using this
 
--- OPEN policyYear_spec_bridge
---   … → Spec.C18.policyYearSpec 0 t out = true
--- (`policyYear_conserves` + `policyYear_basis` are the Prop form, per metadata / evaluation date /
---  field / component; the Bool predicate's grouping by `dedup` keys and `sumData` is not bridged)
+/-- every cell of the result is a `CumulativeCell` -/
+theorem policyYear_kind {t out : List Cell} {len : Nat} {origin : Date} {cont : Bool}
+    (h : aqToPolicyYear t len origin cont = .ok out)
+    (hcov : policyCovered t len origin cont = true) (hu : UniformShapes t) :
+    ∀ o ∈ out, o.kind = .cumulative := by
+  obtain ⟨fsig, hsig⟩ := hu
+  unfold aqToPolicyYear at h
+  obtain ⟨rs, hF, hp⟩ := foldlM_add_spec (F := fun sl => aqToPolicyYearSlice sl len origin cont) _ _ _ h
+  intro o ho
+  have ho' := hp.mem_iff.mp ho
+  rw [List.nil_append] at ho'
+  obtain ⟨r, hr, hor⟩ := List.mem_flatten.mp ho'
+  obtain ⟨sl, hsl, hslr⟩ := hF.mem_right hr
+  have hmd : ∀ c ∈ sl.2, c.md = sl.1 := fun c hc => (mem_slices_md hsl hc).1
+  refine policyYearSlice_kind (fsig := fsig sl.1) ?_ ?_ hslr o hor
+  · intro c hc kv hkv
+    rw [← hmd c hc]; exact hsig c (mem_slices_md hsl hc).2 kv hkv
+  · intro pys hpys row hrow
+    unfold policyCovered at hcov
+    have := List.all_eq_true.mp hcov sl hsl
+    simp only [hpys] at this
+    have := List.all_eq_true.mp this row hrow
+    simpa using this
+
+/-- **policyYear_spec_bridge.** the executable predicate (exact, `tol = 0`) holds on the model's own
+output -/
+theorem policyYear_spec_bridge {t out : List Cell} {len : Nat} {origin : Date} {cont : Bool}
+    (h : aqToPolicyYear t len origin cont = .ok out)
+    (hcov : policyCovered t len origin cont = true) (hu : UniformShapes t) :
+    policyYearSpec 0 t out = true := by
+  unfold policyYearSpec
+  simp only [Bool.and_eq_true, List.all_eq_true, beq_iff_eq]
+  refine ⟨fun o ho => ⟨policyYear_basis h o ho, policyYear_kind h hcov hu o ho⟩, ?_⟩
+  intro k _ f _ i _
+  have hc := policyYear_conserves h hcov hu k.1 k.2 f i
+  have e1 : out.filter (fun c => (toPolicy c.md, c.ev) == k) = out.filter fun o => o.md == k.1 && o.ev == k.2 := by
+    apply List.filter_congr
+    intro o ho
+    have : toPolicy o.md = o.md := by
+      have hb := policyYear_basis h o ho
+      unfold toPolicy; cases hm : o.md; simp_all
+    rw [this]
+    cases k; rfl
+  have e2 : t.filter (fun c => (toPolicy c.md, c.ev) == k) = t.filter fun c => toPolicy c.md == k.1 && c.ev == k.2 := by
+    apply List.filter_congr
+    intro c _
+    cases k; rfl
+  rw [e1, e2, hc]
+  exact close_zero_self _
 
 /-- non-vacuity: one accident quarter, calendar policy year, 12-month policies -/
 def exQ1 : Cell :=
